@@ -357,13 +357,22 @@ def impl_mesh_measure(ctx, E):
     SH = {"SEG": "Seg", "TRI": "Tri", "QUAD": "Quad", "TETRA": "Tet", "HEXA": "Hex", "PRISM": "Prism"}
     cases, exact = [], []
     reps = 1 if ctx.tier == "quick" else 5
+    # directed placements: meshes lying EXACTLY in a coordinate plane / on a coordinate axis other than the
+    # default one (xz-plane, yz-plane; y-axis, z-axis): exact 90-degree rotations, no offset out of the plane
+    PLACED = {1: [(1, 0, 0, 1), (1, 0, 1, 0)], 2: [(1, 1, 0, 0), (1, 0, 1, 0)]}
+    plan = []
     for combo in MIXED:
         if any(n not in E for n in combo):
             continue
-        for _ in range(reps):
+        dmax = max(E[n]["dim"] for n in combo)
+        plan += [(combo, None)] * reps
+        if dmax < 3 and (ctx.tier != "quick" or len(combo) <= 2):
+            plan += [(combo, q) for q in PLACED[dmax]]
+    for combo, placed in plan:
+        if True:
             dmax = max(E[n]["dim"] for n in combo)
             sL = rng.choice([F(1), F(1), F(1, 10**9), F(1, 10**6), F(10**3)])
-            tilt = _rot(rng.choice(QUATS)) if dmax < 3 and rng.random() < 0.5 else _rot((1, 0, 0, 0))
+            tilt = _rot(placed) if placed else (_rot(rng.choice(QUATS)) if dmax < 3 and rng.random() < 0.5 else _rot((1, 0, 0, 0)))
             groups, tot, mom = [], {1: F(0), 2: F(0), 3: F(0)}, [F(0)] * 3
             for name in combo:
                 dim, sh = E[name]["dim"], SH[name.rstrip("0123456789")]
@@ -374,7 +383,8 @@ def impl_mesh_measure(ctx, E):
                     # composed with the tilt of the whole mesh; 2-D meshes stay in their plane before the tilt
                     Rf = _rot(rng.choice(QUATS)) if dim < dmax and dmax == 3 else (_rot(rng.choice([(1, 0, 0, 0), (2, 0, 0, 1), (3, 0, 0, 1), (1, 0, 0, 1)])) if dim < dmax else _rot((1, 0, 0, 0)))
                     A3 = _mm(_mm([[x * sL for x in row] for row in A], [Rf[i] for i in range(dim)]), tilt)
-                    b3 = _mm([[x * sL for x in (b + [F(rng.randint(-8, 8), 4) for _ in range(3 - dim)])]], tilt)[0]
+                    bext = [F(rng.randint(-8, 8), 4) if (not placed or k < dmax - dim) else F(0) for k in range(3 - dim)]
+                    b3 = _mm([[x * sL for x in (b + bext)]], tilt)[0]
                     maps.append({"A3": [[float(x) for x in row] for row in A3], "b3": [float(x) for x in b3]})
                     meas = abs(det) * sL ** dim * MEAS[sh]
                     tot[dim] += meas
@@ -389,15 +399,20 @@ def impl_mesh_measure(ctx, E):
             nS = _rot(rng.choice(QUATS[1:]))[0]
             pR = [F(rng.randint(-4, 4), 4) * sL for _ in range(3)]
             ops = [["observe"], ["queries"], ["observe"], ["translate", [float(x) for x in t]], ["observe"],
-                   ["symmetry", [float(x) for x in pS], [float(x) for x in nS]], ["observe"], ["rotate90z", [float(x) for x in pR]], ["observe"]]
+                   ["symmetry", [float(x) for x in pS], [float(x) for x in nS]], ["observe"], ["rotate90z", [float(x) for x in pR]], ["observe"],
+                   ["scale", 2.5], ["observe"]]
             c1 = [a + b for a, b in zip(cen, t)]
             dd = sum((a - b) * n for a, b, n in zip(c1, pS, nS))
             c2 = [a - 2 * dd * n for a, n in zip(c1, nS)]
             c3 = [pR[0] - (c2[1] - pR[1]), pR[1] + (c2[0] - pR[0]), c2[2]]
             ms = {"length": float(tot[1]) if dmax >= 1 else None, "area": float(tot[2]) if dmax >= 2 else None, "volume": float(tot[3]) if dmax == 3 else None}
             obs = [dict(ms, center=[float(x) for x in cc]) for cc in (cen, cen, c1, c2, c3)]
+            # non-rigid change through the coordinate setter (mesh.coord = mesh.coord * 5/2): measures x (5/2)^d
+            sc = F(5, 2)
+            obs.append({"length": float(tot[1] * sc) if dmax >= 1 else None, "area": float(tot[2] * sc ** 2) if dmax >= 2 else None,
+                        "volume": float(tot[3] * sc ** 3) if dmax == 3 else None, "center": [float(x * sc) for x in c3]})
             cases.append({"groups": groups, "ops": ops})
-            exact.append({"obs": obs, "L": float(sL) * 12.0})
+            exact.append({"obs": obs, "L": float(sL) * 30.0})
     script = os.path.join(common.VERIF, "corr", "impl_meshmeasure.py")
     rc, out, err = ctx.impl_python(script, input=json.dumps({"cases": cases}), timeout=900)
     if rc != 0:
@@ -406,7 +421,7 @@ def impl_mesh_measure(ctx, E):
         return
     res = json.loads(out)
     nbad = 0
-    STAGE = ["as built", "after read-only queries", "after Translate", "after Symmetry", "after Rotate(90)"]
+    STAGE = ["as built", "after read-only queries", "after Translate", "after Symmetry", "after Rotate(90)", "after mesh.coord = 2.5 * mesh.coord"]
     for c, e, r in zip(cases, exact, res):
         label = "+".join(g["elem"] for g in c["groups"])
         ctx.note_case("mesh-measure:" + label)
